@@ -570,6 +570,33 @@ func c04Locations(doc map[string]any, kind string) [][]string {
 	return out
 }
 
+// legal oddities (thorough tier): each keeps the skeleton conforming; a planted violation must be found next to any of them
+var c04Oddities = []struct {
+	name  string
+	apply func(d map[string]any)
+}{
+	{"root extension", func(d map[string]any) { d["x-top"] = m("a", l(1.0, "b")) }},
+	{"no servers", func(d map[string]any) { delete(d, "servers") }},
+	{"no tags and no externalDocs", func(d map[string]any) { delete(d, "tags"); delete(d, "externalDocs") }},
+	{"unused component schema with compositions", func(d map[string]any) {
+		addComponent(d, "schemas", "Unused", m("allOf", l(m("type", "object", "properties", m("u", m("type", "string", "nullable", true))), m("anyOf", l(m("type", "object"), m("not", m("type", "string")))))))
+	}},
+	{"second minimal path", func(d map[string]any) {
+		d["paths"].(map[string]any)["/other"] = m("get", m("operationId", "other", "responses", m("204", m("description", "no content"))))
+	}},
+	{"operation without security", func(d map[string]any) {
+		op, _ := GetAt(d, []string{"paths", "/health", "get"})
+		op.(map[string]any)["security"] = l()
+	}},
+	{"no document security", func(d map[string]any) { delete(d, "security") }},
+	{"path item extension and operation extension", func(d map[string]any) {
+		pi, _ := GetAt(d, []string{"paths", "/health"})
+		pi.(map[string]any)["x-pi"] = true
+		op, _ := GetAt(d, []string{"paths", "/health", "get"})
+		op.(map[string]any)["x-op"] = m("k", "v")
+	}},
+}
+
 func init() {
 	type loc struct {
 		rule int
@@ -602,10 +629,17 @@ func init() {
 		Body: func(r *core.Run, x *explore.X) {
 			prep()
 			ci := x.Choose(len(cases) + 1)
+			odd := 0
+			if r.Tier == "thorough" {
+				odd = x.Choose(len(c04Oddities) + 1)
+			}
 			if !r.Own(x) {
 				return
 			}
 			doc := Skeleton()
+			if odd > 0 {
+				c04Oddities[odd-1].apply(doc)
+			}
 			name, gov, where := "skeleton", "", ""
 			if ci > 0 {
 				c := cases[ci-1]
@@ -615,13 +649,24 @@ func init() {
 					n, _ := GetAt(doc, c.ptr)
 					node, _ = n.(map[string]any)
 				}
-				if !rule.apply(doc, node, c.ptr) {
+				applied := func() (ok bool) {
+					defer func() {
+						if recover() != nil {
+							ok = false // the rule's subject is not there (removed by the oddity): not applicable
+						}
+					}()
+					return rule.apply(doc, node, c.ptr)
+				}()
+				if !applied {
 					r.Outcome("rule-not-applicable-here")
 					return
 				}
 				name, gov, where = rule.name, rule.gov, PtrString(c.ptr)
 			}
 			sig := fmt.Sprintf("rule=%s at=%s", name, locClass(where))
+			if odd > 0 {
+				sig += " next to: " + c04Oddities[odd-1].name
+			}
 			data, _ := json.Marshal(doc)
 			if r.WantSample(x) {
 				r.Sample(x, map[string]any{"rule": name, "governed_by": gov, "location": where})
@@ -652,7 +697,7 @@ func init() {
 					}
 					rejected = verr != nil
 				}
-				r.Case(fmt.Sprintf("%s|%s|%d", name, where, mask), ci > 0)
+				r.Case(fmt.Sprintf("%s|%s|%d|%d", name, where, mask, odd), ci > 0)
 				if gov == "pattern" && mask&8 != 0 && mask&1 == 0 {
 					// pattern validation is off but examples validation is on: an example of an enclosing object is still checked
 					// against the pattern that cannot be compiled; the property does not say which option owns that, so the oracle abstains
